@@ -152,6 +152,7 @@ def main(argv):
     byh = {h.name: h for h in hs}
 
     undecided, errors, failed = [], [], []
+    vacuous = []
     n_obl = n_ok = 0
     by_backend = {}
     solver_s = 0.0
@@ -183,9 +184,14 @@ def main(argv):
         for e in r["ends"]:
             if e["kind"] == "unsupported":
                 undecided.append(f"{r['harness']}[{r['ci']}] path {e['path']}: outside subset: {e['detail']}")
+        hh = byh[r["harness"]]
+        vac_ok = hh.vacuous_ok is not None and hh.vacuous_ok(*hh.case_list()[r["ci"]])
         if not r["obligations"] and not r["errors"]:
-            errors.append(f"{r['harness']}[{r['ci']}]: zero obligations generated (vacuous)")
-        if not done and not r["errors"] and not [e for e in r["ends"] if e["kind"] == "unsupported"]:
+            if vac_ok:
+                vacuous.append(f"{r['harness']}{r['case']}")
+            else:
+                errors.append(f"{r['harness']}[{r['ci']}]: zero obligations generated (vacuous)")
+        if not done and not r["errors"] and not [e for e in r["ends"] if e["kind"] == "unsupported"] and not vac_ok:
             errors.append(f"{r['harness']}[{r['ci']}]: no path reached the end (vacuous precondition)")
         for o in r["obligations"]:
             n_obl += 1
@@ -207,21 +213,21 @@ def main(argv):
     groups = {}
     for r, o in failed:
         groups.setdefault((r["harness"], r["ci"], o["label"]), []).append((r, o))
+    from . import engine
     fp_cache = {}
+    pending = {}  # group key -> dict(witness, reproduced, verifier_out)
     for (hname, ci, label), items in sorted(groups.items()):
         h = byh[hname]
         case = h.case_list()[ci]
-        r, o = items[0]
-        from . import engine
         reproduced = None
         witness = None
-        verifier_out = o["detail"]
+        verifier_out = items[0][1]["detail"]
         for rr, oo in items:
             fails, skipped, err = engine.replay_native(h, case, oo["inputs"] or {})
             if label in fails:
-                reproduced, witness = True, oo["inputs"]
+                reproduced, witness, verifier_out = True, oo["inputs"], oo["detail"]
                 break
-        if reproduced is None and h.float_mode == "real":
+        if reproduced is None and h.float_mode == "real" and not h.state_only:
             # the real-arithmetic float encoding over-approximates rounding: ask the
             # exact IEEE-754 encoding (second back end) for a verdict / counterexample
             key = (hname, ci)
@@ -249,67 +255,98 @@ def main(argv):
                 undecided.append(f"{hname}[{ci}] '{label}': fp-exact back end returned unknown")
                 continue
         if reproduced is None:
-            # the model does not reproduce natively
             has_inputs = any(oo["inputs"] for _, oo in items)
-            if has_inputs and not getattr(h, "state_only", False):
+            if has_inputs and not h.state_only:
                 mismatches.append(f"{hname}[{ci}] '{label}': counter-model {items[0][1]['inputs']} does not fail natively")
                 continue
-        # known finding?
-        kfs = [k for k in known["findings"] if k["harness"] == hname and k["label"] == label
-               and (k.get("case") is None or k.get("case") == ci or k.get("case") == list(case) or k.get("case") == "*")]
-        handled = False
-        for k in kfs:
-            wf, _, _ = engine.replay_native(h, case, k.get("witness") or {})
-            still = label in wf or not k.get("witness")
-            if not still:
+            witness = items[0][1]["inputs"]
+        pending[(hname, ci, label)] = {"witness": witness, "reproduced": bool(reproduced), "out": verifier_out}
+
+    # known findings: an entry applies to (harness, label, case); its witness must still fail on
+    # the real code; outside its input class the obligation is re-proved (a counterexample
+    # there is a different violation and is reported)
+    def applies(k, hname, ci, case, label):
+        if k.get("harness") != hname or label not in (k.get("labels") or [k.get("label")]):
+            return False
+        a = k.get("applies_to", "*")
+        if a == "*":
+            return True
+        return any(list(case[:len(pre)]) == list(pre) for pre in a)
+
+    entry_ok = {}
+
+    def witness_still_fails(i, k):
+        if i not in entry_ok:
+            h = byh.get(k["harness"]) or next((x for x in all_hs if x.name == k["harness"]), None)
+            ok = False
+            if h is not None and k.get("witness") is not None:
+                wc = k.get("witness_case")
+                cl = [list(c) for c in h.case_list()]
+                if wc is None or list(wc) in cl:
+                    wcase = h.case_list()[cl.index(list(wc))] if wc is not None else h.case_list()[0]
+                    wf, _, _ = engine.replay_native(h, wcase, k["witness"])
+                    ok = any(lab in wf for lab in (k.get("labels") or [k.get("label")]))
+            elif h is not None and h.state_only:
+                ok = True  # state-level finding: identified by its obligation, no native input
+            entry_ok[i] = ok
+            if not ok:
                 print(f"NOTE known finding no longer reproduces: property={prop} {k['what']}")
-                continue
-            cls = k.get("input_class")
-            if cls in (None, "*"):
-                known_seen.append(k)
-                handled = True
-                break
-            # re-prove outside the known class
-            ex_task = (prop, hname, ci, h.float_mode, {label: [c for c in ([cls] if isinstance(cls, str) else cls)]}, check_ms)
-            er = run_tasks([ex_task], 1)[0]
+        return entry_ok[i]
+
+    plan = {}  # (hname, ci) -> {label: [class refs]}
+    direct = {}  # group key -> entry indexes that cover it entirely (class '*')
+    for key in pending:
+        hname, ci, label = key
+        case = byh[hname].case_list()[ci]
+        for i, k in enumerate(known["findings"]):
+            if applies(k, hname, ci, case, label) and witness_still_fails(i, k):
+                cls = k.get("input_class", "*")
+                if cls in (None, "*"):
+                    direct.setdefault(key, []).append(i)
+                else:
+                    plan.setdefault((hname, ci), {}).setdefault(label, [])
+                    for c in ([cls] if isinstance(cls, str) else cls):
+                        if c not in plan[(hname, ci)][label]:
+                            plan[(hname, ci)][label].append(c)
+                    pending[key].setdefault("entries", []).append(i)
+    ex_tasks = [(prop, hname, ci, byh[hname].float_mode, excl, check_ms, {"budget_s": byh[hname].budget_s})
+                for (hname, ci), excl in sorted(plan.items()) if not all((hname, ci, lab) in direct for lab in excl)]
+    ex_results = {(r["harness"], r["ci"]): r for r in run_tasks(ex_tasks, nproc)}
+    seen_entries = set()
+    n_known_direct = 0
+    for key, info in sorted(pending.items()):
+        hname, ci, label = key
+        h = byh[hname]
+        case = h.case_list()[ci]
+        if key in direct:
+            seen_entries.update(direct[key])
+            n_known_direct += len(groups[key])
+            continue
+        er = ex_results.get((hname, ci))
+        if er is not None and label in plan.get((hname, ci), {}):
             eobs = [x for x in er["obligations"] if x["label"] == label]
+            incomplete = er["errors"] or any(e["kind"] == "unsupported" for e in er["ends"])
             bad = [x for x in eobs if x["status"] != "proved"]
-            if not bad and not er["errors"]:
-                known_seen.append(k)
-                handled = True
-                break
-            # outside the class: try to reproduce those
+            if eobs and not bad and not incomplete:
+                seen_entries.update(info.get("entries", []))
+                n_ok += len(groups[key])
+                bk = "z3 (re-proved outside the known-finding input class)"
+                by_backend[bk] = by_backend.get(bk, 0) + len(groups[key])
+                continue
             new_viol = False
             for x in bad:
                 if x["status"] == "failed":
                     fails, _, _ = engine.replay_native(h, case, x["inputs"] or {})
-                    if label in fails:
-                        witness, reproduced, verifier_out = x["inputs"], True, x["detail"]
+                    if label in fails or h.state_only:
+                        info.update(witness=x["inputs"], reproduced=label in fails, out=x["detail"] + " (outside the known-finding classes)")
                         new_viol = True
                         break
             if not new_viol:
-                if h.float_mode == "real":
-                    fe = run_tasks([(prop, hname, ci, "fp", ex_task[4], 120000, {"stop_on_repro": True, "budget_s": 900})], 1)[0]
-                    fobs = [x for x in fe["obligations"] if x["label"] == label]
-                    if fobs and all(x["status"] == "proved" for x in fobs) and not fe["errors"]:
-                        known_seen.append(k)
-                        handled = True
-                        break
-                    for x in fobs:
-                        if x["status"] == "failed":
-                            fails, _, _ = engine.replay_native(h, case, x["inputs"] or {})
-                            if label in fails:
-                                witness, reproduced, verifier_out = x["inputs"], True, x["detail"]
-                                new_viol = True
-                                break
-                if not new_viol:
-                    undecided.append(f"{hname}[{ci}] '{label}': outside the known-finding class the obligation is undecided")
-                    handled = True
-            break
-        if handled:
-            continue
-        path = write_replay(prop, hname, ci, case, label, witness, verifier_out, bool(reproduced), functions)
-        violations.append((label, path, bool(reproduced)))
+                undecided.append(f"{hname}[{ci}] '{label}': outside the known-finding class the obligation is undecided")
+                continue
+        path = write_replay(prop, hname, ci, case, label, info["witness"], info["out"], info["reproduced"], functions)
+        violations.append((label, path, info["reproduced"]))
+    known_seen = [known["findings"][i] for i in sorted(seen_entries)]
 
     # ---- CPython differential cross-check of the engine ------------------------------
     per = 30 if tier == "quick" else 300
@@ -361,7 +398,8 @@ def main(argv):
         "property_id": prop, "tier": tier, "seed": seed,
         "level": LEVELS.get(prop, "other"),
         "coverage": {
-            "obligations": n_obl, "discharged": n_ok,
+            "obligations": n_obl - n_known_direct, "discharged": n_ok,
+            "known_finding_obligations": n_known_direct,
             "checker_cmd": f"./check {prop} {tier}",
             "trusted_base": TRUSTED,
             "explanation": EXPLAIN.get(prop, "") or "contract obligations generated from the current /repo ASTs by pyvc and discharged by z3/cvc5",
@@ -375,6 +413,7 @@ def main(argv):
             "samples": samples or [{"note": "all obligations discharged by simplification"}],
             "deferred_to_thorough": n_deferred,
             "native_checks": native_report,
+            "empty_domain_cases": vacuous,
         },
         "assumptions": ASSUMPTIONS,
         "wall_s": round(wall, 2),
@@ -383,7 +422,7 @@ def main(argv):
     os.makedirs(os.path.join(ROOT, "evidence"), exist_ok=True)
     with open(os.path.join(ROOT, "evidence", f"{prop}.json"), "w") as fh:
         json.dump(ev, fh, indent=1, default=str)
-    print(f"{prop} {tier}: {n_ok}/{n_obl} obligations discharged, {len(violations)} violations, "
+    print(f"{prop} {tier}: {n_ok}/{n_obl - n_known_direct} obligations discharged ({n_known_direct} more are listed known findings), {len(violations)} violations, "
           f"{len(known_seen)} known findings, {len(undecided)} undecided, {wall:.1f}s")
     if violations:
         return 1
